@@ -102,7 +102,7 @@ def aero_cfg(draw):
             with_wave=draw(st.booleans()),
             S_ref_type=draw(st.sampled_from(["wetted", "projected"])),
             ref_axis_pos=draw(st.sampled_from(REF_AXIS)),
-            k_lam=draw(st.sampled_from([0.05, 0.0, 0.4])),
+            k_lam=draw(st.sampled_from([0.05, 0.0, 0.4, 1.0])),
             toc=[draw(S.fl(0.06, 0.18, 0.12)) for _ in range(draw(st.integers(1, 2)))],
             CL0=draw(st.sampled_from([0.0, 0.1])),
             CD0=draw(st.sampled_from([0.0, 0.01])),
